@@ -88,7 +88,13 @@ Section Sound.
     | NoInline inner => tree_ok inner
     | TrackCaller _ inner => tree_ok inner
     | CustomInv cs has sg nm => tree_ok nm /\ stored_ok sg nm /\ (has = true -> cs = Some sg)
-    | Switch _ _ _ => False     (* interpreted by the model, frame theorem not proved yet *)
+    | Switch brs sg _ =>
+        (* scalar selectors; every branch fits the switch signature and none touches the under stack *)
+        sua sg = 0 /\ suo sg = 0 /\
+        (fix go (l : list (sig * node)) : Prop :=
+           match l with [] => True | a :: t =>
+             (tree_ok (snd a) /\ stored_ok (fst a) (snd a) /\ sua (fst a) = 0 /\ suo (fst a) = 0 /\
+              so (fst a) <= so sg /\ sa (fst a) + (so sg - so (fst a)) <= sa sg) /\ go t end) brs
     | _ => True end.
   Definition asm_ok : Prop := Forall tree_ok asm.
 
@@ -501,13 +507,113 @@ Section Sound.
       + eapply frame_simE; eauto.
   Qed.
 
+  (** ---- switch (scalar selector) ---- *)
+  Definition branch_ok (sg : sig) (a : sig * node) : Prop :=
+    tree_ok (snd a) /\ stored_ok (fst a) (snd a) /\ sua (fst a) = 0 /\ suo (fst a) = 0 /\
+    so (fst a) <= so sg /\ sa (fst a) + (so sg - so (fst a)) <= sa sg.
+  Lemma switch_branch sg brs :
+    (fix go (l : list (sig * node)) : Prop :=
+       match l with [] => True | a :: t =>
+         (tree_ok (snd a) /\ stored_ok (fst a) (snd a) /\ sua (fst a) = 0 /\ suo (fst a) = 0 /\
+          so (fst a) <= so sg /\ sa (fst a) + (so sg - so (fst a)) <= sa sg) /\ go t end) brs ->
+    forall z a, nth_error brs z = Some a -> branch_ok sg a.
+  Proof.
+    induction brs as [|b t IHb]; intros Hg z a Hn.
+    - destruct z; discriminate.
+    - destruct Hg as [Hb Ht]. destruct z as [|z]; simpl in Hn.
+      + inversion Hn; subst. exact Hb.
+      + eapply IHb; eauto.
+  Qed.
+
+  Lemma switch_rest (rest : list sval) asg afs osg ofs :
+    asg <= length rest -> ofs <= osg -> afs + (osg - ofs) <= asg ->
+    let len := length rest in
+    let dstart := len - asg in
+    let dend := Nat.max dstart ((dstart + asg + ofs) - (afs + osg)) in
+    (len <? dend) = false /\
+    afs <= length (firstn (len - dend) rest ++ skipn (len - dstart) rest) /\
+    exists mid, skipn afs (firstn (len - dend) rest ++ skipn (len - dstart) rest) = mid ++ skipn asg rest /\
+                length mid = osg - ofs.
+  Proof.
+    intros H1 H2 H3 len dstart dend.
+    assert (Ed : len - dend = afs + (osg - ofs)) by (unfold dend, dstart, len; lia).
+    assert (Es : len - dstart = asg) by (unfold dstart, len; lia).
+    split; [apply Nat.ltb_ge; unfold dend, dstart, len; lia|].
+    rewrite Ed, Es. split.
+    - rewrite app_length, firstn_length. lia.
+    - exists (skipn afs (firstn (afs + (osg - ofs)) rest)). split.
+      + rewrite skipn_app. rewrite firstn_length.
+        replace (afs - Nat.min (afs + (osg - ofs)) (length rest)) with 0 by lia. reflexivity.
+      + rewrite skipn_length, firstn_length. lia.
+  Qed.
+
+  Lemma switch_post fuel : P fuel -> asm_ok ->
+    forall brs sg uc d e e' init uinit s,
+    tree_ok (Switch brs sg uc) -> vnode d (Switch brs sg uc) e = Some e' ->
+    fits e' init uinit -> sim2 e init uinit s ->
+    post e' init uinit s (exec (S fuel) (Switch brs sg uc) s).
+  Proof.
+    intros HP HA brs sg uc d [sk un] e' init uinit s Ht Hv [F1 F2] [S1 S2].
+    cbn [tree_ok] in Ht. destruct Ht as (U1 & U2 & Hbr).
+    cbn [vnode] in Hv. destruct (MAX_NODE_DEPTH <? d); [discriminate|].
+    unfold epop in Hv. cbn [fst snd] in Hv.
+    rewrite (handle_sig_noU sg (vpop 1 sk) un _ _ U1 U2 S2) in Hv. cbn [fst snd] in Hv.
+    rewrite vao_vpop1 in Hv.
+    assert (Ee : fst e' = vao (1 + sa sg) (so sg) sk /\ snd e' = (if uc then vpush 1 un else un) /\ m (snd e') = m un).
+    { destruct uc; inversion Hv; subst; cbn [fst snd]; repeat split; auto. }
+    destruct Ee as (Ee1 & Ee2 & Ee3). clear Hv. rewrite Ee1 in F1. rewrite Ee3 in F2.
+    assert (ErrS : forall x, simE (snd e') uinit (und x) -> True) by auto. clear ErrS.
+    cbn [fst snd] in S1, S2.
+    assert (SU : simE (snd e') uinit (und s)).
+    { eapply simE_keep; [exact S2 | rewrite Ee3; lia]. }
+    cbn [Exec.exec].
+    destruct (stk s) as [|sel rest] eqn:Es.
+    { apply post_err; auto. split; auto. rewrite Ee1, Es. eapply simE_keep; eauto. vsimp. lia. }
+    assert (Hlen : 1 + sa sg <= length (sel :: rest)) by (eapply sim_enough; eauto; vsimp; vsimp; lia).
+    assert (ErrR : post e' init uinit s (Err false (set_stk s rest))).
+    { apply post_err; auto. split; cbn [set_stk stk und]; auto. rewrite Ee1.
+      change rest with (skipn 1 (sel :: rest)). apply simE_skip; auto. lia. }
+    destruct sel as [z|o]; [|exact I].
+    destruct ((z <? 0)%Z || (Z.of_nat (length brs) <=? z)%Z); [exact ErrR|].
+    destruct (nth_error brs (Z.to_nat z)) as [[fs f]|] eqn:En; [|exact I].
+    destruct (switch_branch sg brs Hbr _ _ En) as (Tf & Of & V1 & V2 & B1 & B2). cbn [fst snd] in *.
+    simpl in Hlen.
+    destruct (switch_rest rest (sa sg) (sa fs) (so sg) (so fs) ltac:(lia) B1 B2) as (Hd & Hk & mid & Hm & Lm).
+    cbv zeta in Hd, Hk, Hm. rewrite Hd.
+    set (rest' := firstn _ rest ++ skipn _ rest) in *.
+    pose proof (framed_of_P _ _ _ HP HA Tf Of (set_stk s rest')) as Fr.
+    cbn [set_stk stk und] in Fr. rewrite V1 in Fr. specialize (Fr Hk ltac:(lia)).
+    destruct (exec fuel f (set_stk s rest')) as [s2|c s2| |]; cbn [bind]; auto.
+    - destruct Fr as (outs & uouts & A1 & A2 & A3 & A4 & A5).
+      rewrite V2 in A4. destruct uouts; [|discriminate]. simpl in A3.
+      rewrite Hm in A1.
+      assert (Sk : sim (fst e') init (stk s2)).
+      { rewrite Ee1. eapply (frame_sim (1 + sa sg) (so sg) sk init (SInt z :: rest) (stk s2) (outs ++ mid)); eauto.
+        - rewrite A1, <- app_assoc. reflexivity.
+        - rewrite app_length. lia. }
+      apply post_ok.
+      + split.
+        * destruct uc; cbn [set_und stk und]; auto.
+        * rewrite Ee2. destruct uc; cbn [set_und stk und]; rewrite A3.
+          -- apply (sim_push [SInt z]); auto.
+          -- auto.
+      + destruct uc; cbn [hid set_und fills fbs depth]; exact A5.
+    - destruct Fr as (j & uj & A1 & A2 & A3). rewrite Hm in A1. simpl in A2.
+      apply post_err; auto. split.
+      + rewrite Ee1. eapply (frame_simE (1 + sa sg) (so sg) sk init (SInt z :: rest) (stk s2) (j ++ mid)); eauto.
+        rewrite A1, <- app_assoc. reflexivity.
+      + rewrite A2. destruct SU as (q & Eq). exists (uj ++ q). rewrite Eq, app_assoc. reflexivity.
+  Qed.
+
   Ltac senv := cbn [handle_ao handle_sig epop epush fst snd set_stk set_und set_su stk und fills fbs depth] in *.
 
   Theorem P_all : asm_ok -> forall fuel, P fuel.
   Proof.
     intros HA. induction fuel as [|fuel IH]; intros n d e e' init uinit s Ht Hv F S.
     - exact I.
-    - destruct (match n with Mod mk [_] => is_iter mk || match mk with MBy => true | _ => false end | _ => false end) eqn:Ei.
+    - destruct (match n with Switch _ _ _ => true | _ => false end) eqn:Esw.
+      { destruct n; try discriminate Esw. eapply switch_post; eauto. }
+      destruct (match n with Mod mk [_] => is_iter mk || match mk with MBy => true | _ => false end | _ => false end) eqn:Ei.
       { destruct n; try discriminate Ei. destruct args as [|[sg f] [|? ?]]; try discriminate Ei.
         destruct (is_iter m) eqn:Ei2.
         - eapply iter_mod_post; eauto.
@@ -960,7 +1066,6 @@ Section Sound.
           -- apply post_err; auto. split; senv.
              ++ change rest with (skipn 1 (x :: rest)). apply simE_ao_pop; auto.
              ++ apply sim_simE; auto.
-      + (* Switch *) destruct Ht.
       + (* PushUnder *)
         inversion Hv; subst; clear Hv. destruct e as [sk un]. destruct S as [S1 S2]. destruct F as [F1 F2]. senv.
         unfold need. destruct (n <=? length (stk s)) eqn:En; cbn [negb].
